@@ -25,7 +25,20 @@
     It is *false* of the faithful model for the histories listed as known
     findings (D12, D13, D14, D20, K2, K3): Backup/Triggers.v characterises
     them; [C01_full_refuted_D14] below is a witness in the concrete model (the
-    same history fails on the implementation: corpus/findings/D14.case). *)
+    same history fails on the implementation: corpus/findings/D14.case).
+
+    The law-level theorems take two more parameters than the laws had before
+    the documented layering was added: [hid] (view paths at or below a
+    location the base hides, HiddenFS) and [anc] (the proper ancestors of such
+    a location); for a base that hides nothing both are [nohid] and nothing
+    changes.  Theorems that start from an arbitrary state satisfying the
+    invariant and run Rollback ask for [loc_ok hid anc B0] in addition: the
+    baseline shows nothing hidden and shows the ancestors of the hidden
+    locations as directories ([loc_ok_nohid] when nothing is hidden; a
+    consequence of the laws for the base view of an [initial] state).
+    [C01_documented_partial] (end of the file) is the closed theorem for the
+    documented layering, where the backup location lies inside the base tree
+    and is hidden by HiddenFS (Proofs/LawsHidden*.v). *)
 From stdpp Require Import gmap.
 From BFS Require Import Spec.CopySpecs.
 From BFS Require Import Backup.History.
@@ -50,8 +63,8 @@ Print Assumptions C01_initial_invariant.
     Chtimes) not on a symlink (D14).  The base has to satisfy [api_laws2]
     (Spec/Laws2.v) next to [api_laws]. *)
 Theorem C01_step_keeps_invariant :
-  forall base backup Vb Vk tnb tnk accb acck rhb rhk whb whk B0,
-  step_stmt base backup Vb Vk tnb tnk accb acck rhb rhk whb whk B0.
+  forall base backup Vb Vk tnb tnk accb acck rhb rhk whb whk hid anc B0,
+  step_stmt base backup Vb Vk tnb tnk accb acck rhb rhk whb whk hid anc B0.
 Proof. exact step_spec. Qed.
 Print Assumptions C01_step_keeps_invariant.
 
@@ -59,15 +72,15 @@ Print Assumptions C01_step_keeps_invariant.
     reached) returns nil, restores the base view (root metadata and directory
     timestamps aside), empties the backup and the bookkeeping *)
 Theorem C01_rollback_from_invariant :
-  forall base backup Vb Vk tnb tnk accb acck rhb rhk whb whk B0,
-  rollback_stmt base backup Vb Vk tnb tnk accb acck rhb rhk whb whk B0.
+  forall base backup Vb Vk tnb tnk accb acck rhb rhk whb whk hid anc B0,
+  rollback_stmt base backup Vb Vk tnb tnk accb acck rhb rhk whb whk hid anc B0.
 Proof. exact rollback_spec. Qed.
 Print Assumptions C01_rollback_from_invariant.
 
 (** C01 for histories of covered operations, of any length *)
 Theorem C01_rollback_restores_partial :
-  forall base backup Vb Vk tnb tnk accb acck rhb rhk whb whk B0,
-  c01_stmt base backup Vb Vk tnb tnk accb acck rhb rhk whb whk B0.
+  forall base backup Vb Vk tnb tnk accb acck rhb rhk whb whk hid anc B0,
+  c01_stmt base backup Vb Vk tnb tnk accb acck rhb rhk whb whk hid anc B0.
 Proof. exact c01_spec. Qed.
 Print Assumptions C01_rollback_restores_partial.
 
@@ -108,3 +121,23 @@ Proof.
   exists c14, w14, [OCreate [47;108] [120]]. vm_compute.
   split; [reflexivity | intro H; inversion H].
 Qed.
+
+(** C01 for histories of covered operations, closed, for the DOCUMENTED
+    layering: the backup location lies inside the base tree and is hidden
+    from the base by HiddenFS, [dcfg pa h = mkConfig (Some pa) [h] (pa ++ h)].
+    The base view [VpH pa h] is everything below [pa] except the location [h]
+    and what lies below it.  See Props/C04.v (D) for what [covered] demands
+    and for the operations on ancestors of the location. *)
+From BFS Require Import Spec.ViewHidden Proofs.LawsHidden.
+
+Theorem C01_documented_partial :
+  forall pa h, prefix_ok pa -> hidden_ok h ->
+  forall B0, all_small B0 ->
+  forall w0 ops w,
+    initial (VpH pa h) (Vp (pk_h pa h)) clean clean (acc_h pa h) (acc_p (pk_h pa h)) B0 w0 ->
+    good_run (cfg_base (dcfg pa h)) (cfg_backup (dcfg pa h)) (VpH pa h) w0 ops w ->
+    exists w', b_rollback (cfg_base (dcfg pa h)) (cfg_backup (dcfg pa h)) w = (MOk tt, w') /\
+               store_eqv (VpH pa h w') B0 /\ (forall p, p <> s_root -> Vp (pk_h pa h) w' !! p = None) /\
+               w_infos w' = ∅.
+Proof. exact c01_documented. Qed.
+Print Assumptions C01_documented_partial.
